@@ -130,7 +130,9 @@ class AddressBase(Base):
                 items_.append(addr_o)
             elif isinstance(item, str):
                 line = h.init_line(item)
-                addr_o = self.__class__(line=line, platform=self._platform, max_ncwb=self.max_ncwb)
+                addr_o = self.__class__(
+                    line=line, platform=self._platform, version=self.version, max_ncwb=self.max_ncwb
+                )
                 items_.append(addr_o)
             else:
                 raise TypeError(f"{item=} {str} expected")
